@@ -122,6 +122,47 @@ CHECKS = {
 
 CATEGORY = {'C08': 'fault_enumeration', 'C09': 'fault_enumeration'}
 
+EXTRA = {
+    'C01': '; failing decodes/encodes interleaved with every case, caller-'
+           'side in-place changes, shards under -W error / DEBUG logging / '
+           '-O / foreign environment',
+    'C02': '; failing operations interleaved, in-place change of the '
+           'headers table then re-marshal, configuration shards',
+    'C03': '; poisoned-table fail-then-retry on the same object, five '
+           'narrow decimal contexts, configuration shards',
+    'C04': '; refused marshals interleaved, configuration shards',
+    'C05': '; failing decodes (incl. 48-level deep faults) interleaved, '
+           'frames above the default frame-max, configuration shards',
+    'C06': '; frames above frame-max in streams, one bytearray consumed in '
+           'place, configuration shards',
+    'C07': '; payload-less and > frame-max frames, one bytearray grown in '
+           'place, configuration shards incl. python -O',
+    'C08': '; deep-fault and multi-level length-skew frames, retained-memory '
+           'sequences, shards under python -O',
+    'C09': '; deep-fault frames, shards under -W error / -O / DEBUG logging',
+    'C10': '; narrow decimal contexts, in-place change then re-marshal, '
+           'configuration shards',
+    'C11': '; 12-element int arrays, toggle by direct assignment, '
+           'configuration shards',
+    'C12': '; colliding truncated keys, in-place change vs fresh object, '
+           'decimal contexts, configuration shards',
+    'C13': '; three marshal attempts per object, shards under -O / -W error '
+           '/ DEBUG logging',
+    'C14': '; walk -> ordinary use of every class (repr, logging, copy, '
+           'encode, decode, k-th argument faults, client subclasses) -> walk '
+           'again; foreign-environment shard',
+    'C16': '; failure-storm amplification, cold concurrent first use of '
+           'every class, long pauses, toggle by assignment (module-state '
+           'changes are evidence, not verdicts)',
+    'C17': '; first access from 8 threads at once, walk -> client '
+           'subclasses / raise / pickle -> walk again, configuration shards',
+    'C18': '; refused marshals interleaved, configuration shards',
+    'C19': '; objects printed before each evaluation, non-argument and '
+           'foreign argument names, configuration shards',
+    'C20': '; frames above frame-max, refused marshals interleaved, '
+           'configuration shards',
+}
+
 NOTE = ('Trusted base: CPython 3.12 sys.monitoring, struct/decimal/datetime; '
         'the hand-transcribed tables in vmon/refspec.py and the reference '
         'codec vmon/refcodec.py (self-checked at setup); generators are '
@@ -144,7 +185,7 @@ def main():
                 'category': CATEGORY.get(pid, 'exploration'),
                 'text': text, 'design_ref': 'DESIGN.md section ' + ref},
             'level_note': NOTE,
-            'technique': 'runtime monitoring: ' + tech,
+            'technique': 'runtime monitoring: ' + tech + EXTRA.get(pid, ''),
         })
     man = {
         'version': 1,
